@@ -65,7 +65,7 @@ def build():
             }
         ],
         "checks": checks,
-        "notes": "All checks are static: they read /repo/gaftools/**/*.py on every run, never import or execute gaftools. Exit 0 = held (KNOWN-FINDING lines possible), 1 = VIOLATION, 2 = ANALYSIS-ERROR (undecidable, fail-closed). Known findings: /verif/known_findings.json. Every check first evaluates the model-free lint families R00.7-R00.13 (library pitfalls, lifecycle / laziness, tolerance code, expressions that mean something else) over the source files its property depends on, then the property's own rules and the rule bundles of the mechanisms it rests on (reader, tag parser, graph loader, index, command-line layer). Self-validation corpora: /verif/seeded (747 property-breaking changes by independent sub-agents, each confirmed in a scratch worktree) and /verif/benign (399 behaviour-preserving patches); `python -m gv selftest` replays them against the current tree.",
+        "notes": "All checks are static: they read /repo/gaftools/**/*.py on every run, never import or execute gaftools. Exit 0 = held (KNOWN-FINDING lines possible), 1 = VIOLATION, 2 = ANALYSIS-ERROR (undecidable, fail-closed). Known findings: /verif/known_findings.json. Every check first evaluates the model-free lint families R00.7-R00.13 (library pitfalls, lifecycle / laziness, tolerance code, expressions that mean something else) over the source files its property depends on, then the property's own rules and the rule bundles of the mechanisms it rests on (reader, tag parser, graph loader, index, command-line layer). Self-validation corpora: /verif/seeded (747 property-breaking changes by independent sub-agents, each confirmed in a scratch worktree) and /verif/benign (421 behaviour-preserving patches; 18 more with open false alarms of shape rules on refactored code are listed in /verif/benign_open); `python -m gv selftest` replays them against the current tree.",
         "not_applicable": na,
     }
     return man
